@@ -41,7 +41,13 @@ CfgOK(c) ==
   /\ \A i \in 1..Len(c.live) : c.live[i] \in 0..(c.slots - 1)
   /\ \A i \in 1..Len(c.edges) : c.edges[i][1] \in SeqRange(c.live) /\ c.edges[i][2] \in SeqRange(c.live)
   /\ Len(c.kinds) = c.slots /\ Len(c.c) = c.slots /\ Len(c.nb) = c.slots /\ Len(c.init) = c.slots
-  /\ \A i \in 1..Len(c.live) : c.kinds[c.live[i] + 1] \in {"src", "sum", "pass"} /\ c.nb[c.live[i] + 1] >= 1
+  /\ \A i \in 1..Len(c.live) : c.kinds[c.live[i] + 1] \in {"src", "sum", "pass"}
+  \* a probe is recognised as an input by the stamp in its buffers, so a node that feeds another node needs at
+  \* least one buffer; nodes that feed nobody (meters, taps at the end of a chain) may have none
+  /\ \A i \in 1..Len(c.live) :
+       \/ c.nb[c.live[i] + 1] >= 1
+       \/ /\ c.nb[c.live[i] + 1] = 0
+          /\ \A e \in 1..Len(c.edges) : c.edges[e][1] = c.live[i] => c.edges[e][2] = c.live[i]
 GraphFrom(c) == GraphOf(c.slots, SeqRange(c.live), c.edges)
 DescFrom(c)  == [v \in 0..(c.slots - 1) |-> [kind |-> c.kinds[v + 1], c |-> c.c[v + 1]]]
 ValFrom(c)   == [v \in 0..(c.slots - 1) |->
